@@ -509,4 +509,4 @@ def run(ctx):
       'zero means < 1e-10 of the largest individual term of the same equation']
   return ctx.finish(rule='one case per balanced configuration of Balanced.tla (solid-body rotation: radius x rotation rate x surface-pressure '
                          'curvature x per-level winds x humidity x split; rest: radius x total wavenumber x split, 3 labels; jets: 1-3 layers x '
-                         'polynomial profiles x densities) x grids; column family: one case per (level set, reference profile, divergence column, temperature column); shallow-water polynomial family: one case per (psi, chi, phi) menu choice x radius x rotation x orography x 1-2 layers x grid; primitive polynomial family: one case per (level set, reference profile, menu choice of psi/chi/T'/ln ps/orography per level) x grid')
+                         'polynomial profiles x densities) x grids; column family: one case per (level set, reference profile, divergence column, temperature column); shallow-water polynomial family: one case per (psi, chi, phi) menu choice x radius x rotation x orography x 1-2 layers x grid; primitive polynomial family: one case per (level set, reference profile, menu choice of psi/chi/temperature/ln ps/orography per level) x grid')
